@@ -2,6 +2,7 @@ import NTV.Proofs.Lemmas.PolyModBasics
 import NTV.Proofs.Lemmas.PolyDivremMod
 import NTV.Proofs.Lemmas.PolyGcdMod
 import NTV.Proofs.Lemmas.PolyModLinearMain
+import NTV.Proofs.Lemmas.NoPanicLinear
 /-! # C12 — roots modulo p with multiplicity.
 First the building blocks (shift range, root test, inverse, division, gcd, input reduction); then, in the
 second part of the file, the full statement for every prime, every input and every history of draws:
@@ -199,5 +200,46 @@ example : haveI : Fact (Nat.Prime 5) := ⟨by norm_num⟩
   haveI : Fact (Nat.Prime 5) := ⟨by norm_num⟩
   roots_complete 5 [1, 0, 1] [[0, 0, 0, 32], [0, 0, 0, 64], [0, 0, 0, 96]] [3, 2]
     ((nonzero_mod_iff 5 [1, 0, 1]).mpr ⟨0, by decide⟩) (by decide +kernel)
+
+end NTV.C12
+
+/-! ## Panic-freedom: on legal input the only failure is an exhausted draw stream -/
+namespace NTV.C12
+open NTV.PolyMod NTV.PolyG Polynomial
+
+/-- **C12 panic-freedom**: for every prime p, every f ≢ 0 mod p and EVERY draw stream, a run of
+`find_linear_factors` that does not return a list fails with `inconclusive stream` (the supplied stream of
+random chunks ran out — not a behaviour of the code). In particular no Rust panic is possible: the
+`debug_assert!(modpow(a, p, p) == a)` never fires (Fermat), `divide_by_x_a` is only called on roots of a
+non-zero polynomial (neither its `debug_assert!` nor the `vec![0; usize::MAX]` overflow fires), and neither
+the fuel of `poly_gcd` nor that of the recursion is ever exhausted (`inconclusive fuel` is impossible). -/
+theorem no_panic (p : ℕ) [Fact p.Prime] (f : List Int) (s : NTV.Draw.Stream) (e : String)
+    (hf : (toPoly f).map (Int.castRingHom (ZMod p)) ≠ 0)
+    (h : findLinearFactors f p s = .error e) : e = "inconclusive stream" :=
+  findLinearFactors_no_panic p f s e hf h
+
+/-- for p = 2 nothing is drawn and the routine is total -/
+theorem total_two (f : List Int) (s : NTV.Draw.Stream)
+    (hf : (toPoly f).map (Int.castRingHom (ZMod 2)) ≠ 0) : ∃ res, findLinearFactors f 2 s = .ok res :=
+  findLinearFactors_two_total f s hf
+
+/-- the recursive routine itself, for any fuel exceeding the number of chunks left: no panic, no fuel
+exhaustion, and on success the stream has not grown -/
+theorem impl_no_panic (p : ℕ) [Fact p.Prime] (fuel : Nat) (poly result : List Int) (s : NTV.Draw.Stream)
+    (hr : Reduced (p : Int) poly) (hc : Canon poly) (hne : poly ≠ []) (hfuel : s.length < fuel) :
+    (∀ e, findLinearImpl p fuel poly result s = .error e → e = "inconclusive stream") ∧
+    (∀ res s', findLinearImpl p fuel poly result s = .ok (res, s') → s'.length ≤ s.length) := by
+  have := findLinearImpl_post p fuel poly result s (good_of p poly hr hc hne) hfuel
+  constructor
+  · intro e he; rw [he] at this; exact this
+  · intro res s' he; rw [he] at this; exact this
+
+/-! non-vacuity: the error case does occur (a stream that is too short), with exactly this message; the
+hypotheses are those of `roots_complete` (satisfiable, see above) -/
+example : findLinearFactors [1, 0, 1] 5 [] = .error "inconclusive stream" := by decide +kernel
+example : haveI : Fact (Nat.Prime 5) := ⟨by norm_num⟩
+    ∀ e, findLinearFactors [1, 0, 1] 5 [[0, 0, 0, 32], [0, 0, 0, 64]] = .error e → e = "inconclusive stream" :=
+  haveI : Fact (Nat.Prime 5) := ⟨by norm_num⟩
+  fun e h => no_panic 5 [1, 0, 1] _ e ((nonzero_mod_iff 5 [1, 0, 1]).mpr ⟨0, by decide⟩) h
 
 end NTV.C12
